@@ -46,6 +46,9 @@ def gen_C01(tier, rng):
             n = rng.randrange(4 * B + 2, maxlen + 1)
             yield (f"hash.{alg} {hx(rng.rbytes(n))}", "long.random")
         yield (f"hash.{alg} {hx(rng.rbytes(maxlen))}", "long.max")
+        if quick:
+            # the upper end of the sampled range the property names (64 KiB), once per algorithm in the quick tier too
+            yield (f"hash.{alg} {hx(rng.rbytes(65536))}", "long.64KiB")
 
 
 def chunk_lens(B):
